@@ -1,5 +1,5 @@
 """C06 - pc and its variance estimator are unbiased under multinomial sampling."""
-import itertools, math
+import itertools, math, os
 from fractions import Fraction
 import numpy as np
 from core import call_impl, close
@@ -97,6 +97,562 @@ def var_scale(v):
     return float(4 * Fraction(N - 2, ff(N, 2)) * (1 + beta) * p3 + beta * p2 ** 2 + Fraction(2, ff(N, 2)) * (1 + beta) * p2)
 
 
+# ---------------------------------------------------------------------------------------------------------------------------------
+# Widened input kinds (coverage audit): containers of counts and of samples, label kinds, sizes beyond internal thresholds, buffers
+# refilled in place, two-sample values, row samples (DataFrame / deprecated pair tuple), stdpc_joint.  Every expected value is the
+# regenerated formula evaluated by the oracle on the count vector obtained by counting the PYTHON-LEVEL labels (collections.Counter),
+# or (two samples) the model's pc2 on an injective relabelling / the exact rational sum c1_i c2_i / (N1 N2) for sizes the unary
+# naturals of the extracted model do not reach.
+
+def _scalar(impl):
+    import pandas as pd
+    if impl[0] == 'ok' and (isinstance(impl[1], (pd.Series, pd.DataFrame)) or np.ndim(impl[1]) != 0):
+        return ('exc', 'returned a %s instead of a number' % type(impl[1]).__name__)
+    return impl
+
+
+def _judge(impl, what, exp, vs):
+    """what: 'pc' (also the two-sample value), 'var', 'std'; exp: exact rational or None (undefined in the model: zero denominator).
+    The variance is compared relative to the size vs of its three (cancelling) terms, the standard deviation through its square."""
+    if exp is None:
+        return impl[0] == 'exc' or not np.isfinite(impl[1])
+    if impl[0] != 'ok':
+        return False
+    try:
+        x = float(impl[1])
+    except Exception:
+        return False
+    q = float(exp)
+    if what == 'pc':
+        return close(x, exp, rel=1e-9, abs_=1e-300)
+    tol = 1e-9 * abs(q) + 1e-10 * vs
+    if what == 'var':
+        return abs(x - q) <= tol
+    if x != x:
+        return q <= tol             # the float64 variance may round below zero only where the exact one is inside the rounding of its terms
+    return x >= 0 and (abs(x * x - q) <= tol or abs(x - math.sqrt(max(q, 0.0))) <= 1e-12 * math.sqrt(max(q, 0.0)))
+
+
+def _counts_of(labels):
+    from collections import Counter
+    return sorted(Counter(labels).values(), reverse=True)
+
+
+def _labels(kind, K):
+    """K pairwise different Python-level labels of one kind (different as Python objects AND as numpy array elements)."""
+    if kind == 'int':
+        return [i - 2 for i in range(K)]
+    if kind == 'int_wide':
+        base = [2 ** 53, 2 ** 53 + 1, 2 ** 63 - 1, -2 ** 63, -2 ** 53 - 1, 2 ** 53 + 2, 0, 2 ** 62, 2 ** 62 + 1, -1]
+        return (base + [2 ** 53 + 3 + i for i in range(K)])[:K]
+    if kind == 'uint64':
+        return [2 ** 64 - 1 - i if i % 2 == 0 else i for i in range(K)]
+    if kind == 'int8':
+        return [(-128 + i) if i % 2 == 0 else (127 - i) for i in range(K)]
+    if kind == 'bool':
+        return [True, False][:K]
+    if kind == 'float':
+        base = [0.5, 0.25, 0.1 + 0.2, 0.3, 1e-300, 1e300, -0.5, 5e-324, 1.0, 1.0 + 2 ** -52, 2.0 ** 53, 2.0 ** 53 + 2]
+        return (base + [float(i) + 0.125 for i in range(K)])[:K]
+    if kind == 'str_cdr3':
+        base = ['CASS', 'CASSL', 'CASSLG', 'CASSLGF', 'CAS', 'CASSLGQ', 'CSAS', 'CASSF', 'CASSLGFF', 'C']
+        return (base + ['CASSL' + 'GQ' * (i + 1) + 'F' for i in range(K)])[:K]
+    if kind == 'str_case_ws':
+        base = ['a', 'A', 'a ', ' a', '', 'ab', 'Ab', 'a\t', '1', '01', '1.0', '1e0', ' 1', 'nan', 'None', ' ']
+        return (base + ['w%d' % i for i in range(K)])[:K]
+    if kind == 'str_long':
+        base = []
+        for n in (126, 127, 128, 254, 255, 256, 999):
+            base += ['A' * n + 'C', 'A' * n + 'D']
+        base += ['C' + 'A' * 300, 'D' + 'A' * 300]
+        return (base + ['A' * (1001 + i) for i in range(K)])[:K]
+    if kind == 'str_unicode':
+        # precomposed / base letter / combining sequence, sharp s / ss, upper / lower case, Greek, a letter outside the BMP
+        base = ['\u00e9', 'e', '\u00df', 'ss', '\u00c9', 'e\u0301', '\u03b1', '\u03b2', '\U0001d6fc', 'a']
+        return (base + ['\u03b1%d' % i for i in range(K)])[:K]
+    if kind == 'bytes':
+        base = [b'a', b'ab', b'abc', b'A', b'a ', b'b', b'CASS', b'CASSL']
+        return (base + [b'x%d' % i for i in range(K)])[:K]
+    raise KeyError(kind)
+
+
+KIND_DTYPE = {'int': None, 'int_wide': np.int64, 'uint64': np.uint64, 'int8': np.int8, 'bool': None, 'float': None, 'str_cdr3': None,
+              'str_case_ws': None, 'str_long': None, 'str_unicode': None, 'bytes': None}
+SAMPLE_KINDS = tuple(KIND_DTYPE)
+STR_KINDS = ('str_cdr3', 'str_case_ws', 'str_long', 'str_unicode')
+
+
+def _native(s, kind):
+    return np.array(s, dtype=KIND_DTYPE[kind]) if KIND_DTYPE[kind] is not None else np.array(s)
+
+
+def _sample_container(cont, s, kind, rng):
+    """the sample s (Python list of labels) in one container kind"""
+    import pandas as pd
+    if cont == 'list':
+        return list(s)
+    if cont == 'tuple':
+        return tuple(s)
+    if cont == 'ndarray':
+        return _native(s, kind)
+    if cont == 'ndarray[object]':
+        a = np.empty(len(s), dtype=object)
+        a[:] = s
+        return a
+    if cont == 'ndarray[read-only]':
+        a = _native(s, kind)
+        a.setflags(write=False)
+        return a
+    if cont == 'ndarray[strided view]':
+        inter = []
+        for x in s:
+            inter += [x, s[0]]
+        return _native(inter, kind)[::2]
+    if cont == 'Series':
+        return pd.Series(_native(s, kind)) if kind not in STR_KINDS else pd.Series(list(s))
+    if cont == 'Series[permuted index]':
+        idx = list(range(len(s)))
+        rng.shuffle(idx)
+        return pd.Series(_native(s, kind) if kind not in STR_KINDS else list(s), index=idx)
+    if cont == 'Series[str index]':
+        return pd.Series(_native(s, kind) if kind not in STR_KINDS else list(s), index=['r%d' % (len(s) - i) for i in range(len(s))])
+    if cont == 'Series[duplicate index]':
+        return pd.Series(_native(s, kind) if kind not in STR_KINDS else list(s), index=[0] * len(s))
+    if cont == 'Index':
+        return pd.Index(_native(s, kind) if kind not in STR_KINDS else list(s))
+    if cont == 'DataFrame[1 column]':
+        return pd.DataFrame({'CDR3B': list(s)})
+    raise KeyError(cont)
+
+
+SAMPLE_CONTAINERS = ('list', 'tuple', 'ndarray', 'ndarray[object]', 'ndarray[read-only]', 'ndarray[strided view]', 'Series',
+                     'Series[permuted index]', 'Series[str index]', 'Series[duplicate index]', 'Index', 'DataFrame[1 column]')
+
+
+def _count_container(cont, v, rng):
+    """the count vector v in one container kind"""
+    import pandas as pd, array as pyarray
+    K = len(v)
+    if cont == 'tuple':
+        return tuple(v)
+    if cont == 'list[np.int64]':
+        return [np.int64(x) for x in v]
+    if cont == 'array.array':
+        return pyarray.array('q', v)
+    if cont == 'ndarray[float64]':
+        return np.array(v, dtype=np.float64)
+    if cont == 'ndarray[float32]':
+        return np.array(v, dtype=np.float32)
+    if cont == 'ndarray[object]':
+        return np.array(v, dtype=object)
+    if cont == 'ndarray[read-only]':
+        a = np.array(v)
+        a.setflags(write=False)
+        return a
+    if cont == 'ndarray[strided view]':
+        inter = []
+        for x in v:
+            inter += [x, 7]
+        return np.array(inter)[::2]
+    if cont == 'ndarray[reversed view]':
+        return np.array(v[::-1])[::-1]
+    if cont == 'Series':
+        return pd.Series(v)
+    if cont == 'Series[shifted index]':
+        return pd.Series(v, index=range(5, 5 + K))
+    if cont == 'Series[permuted index]':
+        idx = list(range(K))
+        rng.shuffle(idx)
+        return pd.Series(v, index=idx)
+    if cont == 'Series[Int64]':
+        return pd.Series(v, dtype='Int64')
+    if cont == 'Series[float64]':
+        return pd.Series(v, dtype='float64')
+    if cont == 'Series[value_counts]':
+        smp = ['CAS%sF' % ('L' * i) for i, c in enumerate(v) for _ in range(c)]
+        rng.shuffle(smp)
+        return pd.Series(smp).value_counts()
+    if cont == 'Series[groupby size]':
+        smp = [i * 3 - 1 for i, c in enumerate(v) for _ in range(c)]
+        rng.shuffle(smp)
+        return pd.Series(smp).groupby(smp).size()
+    if cont == 'Index':
+        return pd.Index(v)
+    raise KeyError(cont)
+
+
+COUNT_CONTAINERS = ('tuple', 'list[np.int64]', 'array.array', 'ndarray[float64]', 'ndarray[float32]', 'ndarray[object]',
+                    'ndarray[read-only]', 'ndarray[strided view]', 'ndarray[reversed view]', 'Series', 'Series[shifted index]',
+                    'Series[permuted index]', 'Series[Int64]', 'Series[float64]', 'Series[value_counts]', 'Series[groupby size]', 'Index')
+
+
+def _content(obj):
+    import pandas as pd
+    if isinstance(obj, pd.DataFrame):
+        return obj.to_numpy().tolist()
+    return np.asarray(obj).tolist()
+
+
+def _short(x, n=40):
+    r = repr(x) if not isinstance(x, str) else x
+    return r if len(r) <= n else r[:n - 12] + '...(%d chars)' % len(r)
+
+
+def _show_sample(s):
+    s = list(s)
+    if len(s) <= 16:
+        return '[%s]' % ', '.join(_short(repr(x)) for x in s)
+    return '[%s, ... (%d elements)]' % (', '.join(_short(repr(x)) for x in s[:8]), len(s))
+
+
+class _Jobs:
+    """calls on the implementation queued with the count vector that decides the expected value; the exact values are fetched from
+    the oracle in one batch, then the calls run in the order they were queued (so sequences on one object stay sequences)."""
+
+    def __init__(self, ctx):
+        self.ctx, self.jobs, self.pc2 = ctx, [], []
+
+    def add(self, family, name, fn, args, what, counts=None, kwargs=None, pre=None, exp=None, pc2=None, keep=None, desc='', replay=None):
+        """counts: count vector (what in pc / var / std); pc2: (tokens1, tokens2) for the model's two-sample value; exp: given exact value;
+        pre: action just before the call (refill of a buffer); keep: (object, content) that must hold the same content afterwards"""
+        j = dict(family=family, name=name, fn=fn, args=args, kwargs=kwargs or {}, what=what, counts=None if counts is None else tuple(counts),
+                 pre=pre, exp=exp, pc2=pc2, keep=keep, desc=desc, replay=replay or {})
+        if pc2 is not None:
+            j['pc2_at'] = len(self.pc2)
+            self.pc2.append(('api_pc2', [list(pc2[0]), list(pc2[1])]))
+        self.jobs.append(j)
+
+    def run(self):
+        ctx = self.ctx
+        vecs = sorted({j['counts'] for j in self.jobs if j['counts'] is not None})
+        reqs = []
+        for v in vecs:
+            reqs += [('api_gen_pc_n', [list(v)]), ('api_gen_varpc_n', [list(v)])]
+        outs = ctx.oracle.run_parallel(reqs + self.pc2)
+        val = {v: (outs[2 * k], outs[2 * k + 1]) for k, v in enumerate(vecs)}
+        p2 = outs[len(reqs):]
+        scale = {}
+        for n, j in enumerate(self.jobs):
+            what, v = j['what'], j['counts']
+            if j['pre'] is not None:
+                j['pre']()
+            if j['pc2'] is not None:
+                num, den = p2[j['pc2_at']]
+                exp = Fraction(num, den) if den else None
+            elif j['exp'] is not None:
+                exp = j['exp']
+            else:
+                (pdef, pq), (vdef, vq) = val[v]
+                if what == 'pc':
+                    exp = pq if pdef else None
+                else:
+                    exp = vq if vdef else None
+                    if what == 'std' and vdef and vq < 0:
+                        continue            # negative estimate: the root is not demanded (nan in the code), see C06_std
+            vs = 0.0
+            if what in ('var', 'std') and v is not None:
+                if v not in scale:
+                    scale[v] = var_scale(list(v))
+                vs = scale[v]
+            impl = _scalar(call_impl(j['fn'], *j['args'], **j['kwargs']))
+            ctx.count('widened:' + j['family'])
+            nt = exp is not None and (v is None or (sum(v) >= 4 and sum(1 for x in v if x > 0) >= 2))
+            ctx.case(sample=dict(func=j['name'], input=j['desc'], impl=str(impl), model=str(exp)) if nt and n % 211 == 0 else None,
+                     nontrivial_key=(j['family'], j['name'], j['desc'], v) if nt else None)
+            if not _judge(impl, 'pc' if what == 'pc2' else what, exp, vs):
+                shown = 'undefined (zero denominator)' if exp is None else '%s (= %r)' % (exp, float(exp)) if what != 'std' else \
+                    'sqrt(%s) = %r' % (exp, math.sqrt(max(float(exp), 0.0)))
+                ctx.violation('property', '%s on %s = %s but the formula the unbiasedness theorems are about gives %s%s' %
+                              (j['name'], j['desc'], impl, shown, '' if v is None else ' for the counts %s' % show(list(v))),
+                              dict(j['replay'], func=j['name'], family=j['family'], input=j['desc'], counts=None if v is None else list(v)[:200],
+                                   impl=str(impl), expected=str(exp)),
+                              site='stats.' + j['name'].split('[')[0].split('(')[0])
+            if j['keep'] is not None:
+                obj, before = j['keep']
+                after = _content(obj)
+                ctx.case(nontrivial_key=None)
+                if after != before:
+                    ctx.violation('property', 'the counts %s handed to %s hold %s afterwards: a second estimate from the same object is no '
+                                  'longer the estimator of the theorems' % (show(before), j['name'], show(after)),
+                                  dict(j['replay'], func='input-unchanged', via=j['name'], counts=before[:200], after=after[:200]), site='stats.pc_n')
+            if len(ctx.violations) > 10:
+                return False
+        return True
+
+
+def _patterns(rng, quick):
+    pats = [[1, 1], [2, 1], [2, 2], [3, 1], [1, 1, 1, 1], [2, 1, 1], [4], [3, 2, 1], [2, 2, 2, 1, 1], [5, 3, 1, 1, 1, 1], [4, 4, 1], [6, 1]]
+    for _ in range(2 if quick else 30):
+        pats.append([rng.choice([1, 1, 1, 2, 2, 3, 4, 6]) for _ in range(rng.randint(6, 12))])
+    return pats
+
+
+def widened(ctx, st, pd):
+    rng, quick = ctx.rng, ctx.quick
+    J = _Jobs(ctx)
+
+    # (d) count vectors in the container kinds a caller has at hand: pc_n, varpc_n, stdpc_n and pc_n again on the SAME object
+    base = [list(c) for K in (1, 2, 3) for N in (2, 3, 4, 5, 6) for c in compositions(N, K)]
+    if quick:
+        base = [v for i, v in enumerate(base) if i % 3 == rng.randint(0, 2) or sum(v) == 4]
+    for _ in range(6 if quick else 60):
+        base.append([rng.choice([0, 1, 1, 2, 3, 10, 500, rng.randint(0, 10 ** 4)]) for _ in range(rng.randint(1, 30))])
+    for v in base:
+        if sum(v) < 2:
+            continue
+        for cont in COUNT_CONTAINERS:
+            if cont in ('Series[value_counts]', 'Series[groupby size]') and sum(v) > 5000:
+                continue
+            obj = _count_container(cont, v, rng)
+            vv = [int(x) for x in _content(obj)]                # what the container holds (value_counts / groupby drop empty categories, reorder)
+            assert sorted(x for x in vv if x) == sorted(x for x in v if x), (cont, v, vv)
+            mutable = cont not in ('tuple',)
+            seq = [('pc_n', st.pc_n, 'pc'), ('varpc_n', st.varpc_n, 'var'), ('stdpc_n', st.stdpc_n, 'std'), ('pc_n', st.pc_n, 'pc')]
+            if cont == 'ndarray[float32]':
+                seq = seq[1:3]           # float32 in, float32 arithmetic out for pc_n: rounding of the container, not of the estimator
+            if rng.random() < 0.5:
+                seq = seq[1:3] + seq[:1] + seq[1:2]
+            for nm, fn, what in seq:
+                J.add('count container', '%s[%s]' % (nm, cont), fn, (obj,), what, counts=vv, keep=(obj, _content(obj)) if mutable else None,
+                      desc='%s of %s' % (cont, show(vv)), replay=dict(container=cont))
+    # range objects are count vectors too (0, 1, ..., K-1)
+    for K in (3, 4, 7, 50):
+        for nm, fn, what in (('pc_n', st.pc_n, 'pc'), ('varpc_n', st.varpc_n, 'var'), ('stdpc_n', st.stdpc_n, 'std')):
+            J.add('count container', '%s[range]' % nm, fn, (range(K),), what, counts=list(range(K)), desc='range(%d)' % K, replay=dict(container='range'))
+
+    # (e) ONE preallocated count buffer (array, Series, list) refilled in place with count vector after count vector of the same length
+    # and the same total; pc_n / varpc_n / stdpc_n in rotating order
+    for K, N in ((2, 5), (3, 4), (3, 6)) if quick else ((2, 5), (3, 4), (3, 6), (2, 9), (4, 6), (3, 8)):
+        abuf = np.zeros(K, dtype=np.int64)
+        sbuf = pd.Series(np.zeros(K, dtype=np.int64), index=['c%d' % i for i in range(K)])
+        lbuf = [0] * K
+        fns = [('pc_n', st.pc_n, 'pc'), ('varpc_n', st.varpc_n, 'var'), ('stdpc_n', st.stdpc_n, 'std')]
+        comps = [list(c) for c in compositions(N, K)]
+        # buffer after buffer (no call on another object between two refills of one buffer)
+        for bname, buf in (('ndarray', abuf), ('Series', sbuf), ('list', lbuf)):
+            rng.shuffle(comps)
+            for r, v in enumerate(comps):
+                def fill(buf=buf, v=v):
+                    buf[:] = v
+                order = fns[r % 3:] + fns[:r % 3]
+                for q, (nm, fn, what) in enumerate(order):
+                    J.add('count buffer refilled in place', '%s[refilled %s]' % (nm, bname), fn, (buf,), what, counts=v,
+                          pre=fill if q == 0 else None, desc='one preallocated %s of %d counts holding %s (refill number %d)' % (bname, K, v, r + 1),
+                          replay=dict(container=bname, refill=r + 1, K=K, N=N))
+
+    # (f) many categories: K beyond 2^10, 2^12, 2^15, 2^16, 10^5 (2^20), mostly small counts and a few clones
+    for K in (1000, 4097, 2 ** 15 + 1, 2 ** 16 + 3, 10 ** 5 + 3) if quick else (1000, 4097, 2 ** 15 + 1, 2 ** 16 + 3, 10 ** 5 + 3, 250000, 2 ** 20 + 1):
+        v = [rng.choice([1, 1, 1, 1, 2, 2, 3, 5, 0]) for _ in range(K)]
+        for _ in range(3):
+            v[rng.randrange(K)] = rng.randint(50, 5000)
+        for cont, obj in (('ndarray', np.array(v)), ('list', list(v)), ('Series', pd.Series(v, index=['c%d' % i for i in range(K)]))):
+            if cont == 'list' and K > 5000:
+                continue
+            for nm, fn, what in (('pc_n', st.pc_n, 'pc'), ('varpc_n', st.varpc_n, 'var'), ('stdpc_n', st.stdpc_n, 'std')):
+                J.add('many categories', '%s[%s]' % (nm, cont), fn, (obj,), what, counts=v, keep=(obj, list(v)) if cont != 'list' else None,
+                      desc='%s of %s' % (cont, show(v)), replay=dict(container=cont, K=K))
+
+    # (g) samples: label kinds x containers; pc, stdpc, pc again on the same object
+    for pi, pat in enumerate(_patterns(rng, quick)):
+        for kind in SAMPLE_KINDS:
+            if kind == 'bool' and len(pat) > 2:
+                continue
+            labs = _labels(kind, len(pat))
+            rng.shuffle(labs)
+            s = [labs[i] for i, c in enumerate(pat) for _ in range(c)]
+            rng.shuffle(s)
+            v = _counts_of(s)
+            assert v == sorted(pat, reverse=True)
+            for cont in SAMPLE_CONTAINERS:
+                if cont == 'DataFrame[1 column]' and kind not in STR_KINDS + ('int',):
+                    continue
+                if kind == 'uint64' and cont in ('list', 'tuple') and not os.environ.get('PV_PENDING_C06'):
+                    continue        # NOTES.md, POSSIBLE DEFECT 1: a Python list mixing labels below 2^63 and above becomes float64 in np.asarray
+                obj = _sample_container(cont, s, kind, rng)
+                desc = '%s of %s labels %s' % (cont, kind, _show_sample(s))
+                rep = dict(container=cont, kind=kind, sample=[_short(repr(x), 1100) for x in s])
+                if not (cont == 'tuple' and len(s) == 2):         # a 2-tuple is the deprecated (alpha, beta) pair for pc
+                    J.add('sample container x label kind', 'pc[%s]' % cont, st.pc, (obj,), 'pc', counts=v, desc=desc, replay=rep)
+                if not cont.startswith('DataFrame'):
+                    J.add('sample container x label kind', 'stdpc[%s]' % cont, st.stdpc, (obj,), 'std', counts=v, desc=desc, replay=rep)
+                    if not (cont == 'tuple' and len(s) == 2) and (pi + len(cont)) % 3 == 0:
+                        J.add('sample container x label kind', 'pc[%s, again]' % cont, st.pc, (obj,), 'pc', counts=v, desc=desc, replay=rep)
+    # the argument by keyword
+    J.add('sample container x label kind', 'pc[array=]', st.pc, (), 'pc', counts=[2, 1, 1], kwargs=dict(array=['b', 'a', 'b', 'c']), desc="array=['b','a','b','c']")
+
+    # (h) sample sizes across 2^10, 2^15, 2^16 (N(N-1) beyond 32 bits) and 2^21 (N(N-1)(N-2) beyond 64 bits)
+    sizes = [(1000, 50, 'int'), (1000, 300, 'str'), (2 ** 15 + 1, 1000, 'int'), (70000, 10 ** 4, 'int'), (70000, 5000, 'str'), (2 ** 21 + 5, 2000, 'int')]
+    if not quick:
+        sizes += [(2 ** 16 + 1, 3, 'int'), (4 * 10 ** 6, 10 ** 5, 'int'), (3 * 10 ** 5, 10 ** 5, 'str'), (2 ** 17, 2 ** 16 + 5, 'str')]
+    for N, K, kind in sizes:
+        nrng = np.random.RandomState(rng.randint(0, 2 ** 31 - 1))
+        w = nrng.zipf(1.6, size=K).astype(float)
+        idx = nrng.choice(K, size=N, p=w / w.sum())
+        v = sorted((int(c) for c in np.bincount(idx, minlength=K) if c), reverse=True)
+        if kind == 'int':
+            smp = (idx * 7 - 3).astype(np.int64)
+        else:
+            smp = np.array(['CAS%sF' % ('SLGQ'[i % 4] * (1 + i % 17) + str(i)) for i in range(K)])[idx]
+        assert len(np.unique(smp)) == len(v)
+        desc = '%d %s labels over %d categories (largest clones %s)' % (N, kind, len(v), v[:4])
+        for nm, fn, what in (('pc', st.pc, 'pc'), ('stdpc', st.stdpc, 'std')):
+            J.add('large sample', '%s[N=%d]' % (nm, N), fn, (smp,), what, counts=v, desc=desc, replay=dict(N=N, K=K, kind=kind))
+        if N <= 10 ** 5:
+            J.add('large sample', 'pc[list, N=%d]' % N, st.pc, (smp.tolist(),), 'pc', counts=v, desc='list of ' + desc, replay=dict(N=N, K=K, kind=kind))
+            J.add('large sample', 'stdpc[Series, N=%d]' % N, st.stdpc, (pd.Series(smp, index=np.arange(N)[::-1]),), 'std', counts=v,
+                  desc='Series of ' + desc, replay=dict(N=N, K=K, kind=kind))
+
+    # (i) two samples, the value itself (not only its expectation) against the model's pc2
+    def tok2(a, b):
+        d = {}
+        t = [d.setdefault(x, len(d) + 1) for x in list(a) + list(b)]
+        return t[:len(a)], t[len(a):]
+
+    pairs = []
+    for N1, N2, K in ((1, 1, 2), (1, 2, 2), (2, 1, 2), (2, 2, 2), (2, 3, 3), (3, 3, 2)) if quick else \
+            ((1, 1, 2), (1, 2, 2), (2, 1, 2), (2, 2, 2), (2, 3, 3), (3, 3, 2), (3, 3, 3), (4, 2, 3), (1, 5, 3), (4, 4, 2)):
+        for c1 in compositions(N1, K):
+            for c2 in compositions(N2, K):
+                pairs.append((list(c1), list(c2)))
+    for _ in range(40 if quick else 600):
+        K = rng.randint(2, 8)
+        c1 = [rng.choice([0, 0, 1, 1, 2, 3, 5]) for _ in range(K)]
+        c2 = [rng.choice([0, 0, 1, 1, 2, 3, 5]) for _ in range(K)]
+        if sum(c1) and sum(c2):
+            pairs.append((c1, c2))
+    two_conts = (('list', 'list'), ('ndarray', 'ndarray'), ('Series', 'Series[permuted index]'), ('list', 'ndarray'), ('ndarray[object]', 'tuple'),
+                 ('Series[str index]', 'list'), ('Index', 'ndarray[read-only]'), ('DataFrame[1 column]', 'DataFrame[1 column]'),
+                 ('ndarray[strided view]', 'Series[duplicate index]'))
+    two_kinds = ('int', 'str_cdr3', 'str_long', 'str_case_ws', 'int_wide', 'uint64', 'float', 'bytes', 'str_unicode', 'int8')
+    for n, (c1, c2) in enumerate(pairs):
+        kind = two_kinds[n % len(two_kinds)] if n % 3 else rng.choice(('str_cdr3', 'str_long', 'int'))
+        labs = _labels(kind, len(c1))
+        rng.shuffle(labs)
+        a = [labs[i] for i, c in enumerate(c1) for _ in range(c)]
+        b = [labs[i] for i, c in enumerate(c2) for _ in range(c)]
+        rng.shuffle(a)
+        rng.shuffle(b)
+        ca, cb = two_conts[(n // 2) % len(two_conts)] if n % 2 else rng.choice(two_conts)
+        if rng.random() < 0.5:
+            ca, cb = cb, ca
+        if 'DataFrame' in ca and kind not in STR_KINDS + ('int',):
+            ca = cb = 'list'
+        if (ca == 'tuple' and len(a) == 2) or (cb == 'tuple' and len(b) == 2):
+            ca = cb = 'ndarray'
+        if kind == 'uint64':        # a list of small labels only would become int64 and meet uint64 in float64 inside numpy: typed arrays on both sides
+            ca, cb = [c if c not in ('list', 'tuple') else 'ndarray' for c in (ca, cb)]
+        oa, ob = _sample_container(ca, a, kind, rng), _sample_container(cb, b, kind, rng)
+        kw = n % 5 == 0
+        J.add('two samples: value', 'pc(a, b)[%s, %s]' % (ca, cb), st.pc, (oa,) if kw else (oa, ob), 'pc2', kwargs=dict(array2=ob) if kw else None,
+              pc2=tok2(a, b), desc='a = %s of %s, b = %s of %s (%s labels%s)' % (ca, _show_sample(a), cb, _show_sample(b), kind, ', array2 by keyword' if kw else ''),
+              replay=dict(a=[_short(repr(x), 1100) for x in a], b=[_short(repr(x), 1100) for x in b], containers=[ca, cb], kind=kind))
+    # numpy str arrays of different widths: labels of one sample longer than every label of the other, sharing its prefix
+    for a, b in ((['CAS', 'CAT', 'CAS'], ['CASSL', 'CAS', 'CATTT', 'CASSL']), (['A', 'B'], ['AB', 'A', 'BA', 'B', 'B']),
+                 (['CASSLGF'] * 3 + ['CASS'], ['CASS', 'CASSLGFQETQYF', 'CASSLGFQ'])):
+        for ca, cb in (('ndarray', 'ndarray'), ('list', 'list'), ('ndarray', 'list'), ('Series', 'ndarray')):
+            for x, y, cx, cy in ((a, b, ca, cb), (b, a, cb, ca)):
+                J.add('two samples: value', 'pc(a, b)[%s, %s; widths differ]' % (cx, cy), st.pc,
+                      (_sample_container(cx, x, 'str_cdr3', rng), _sample_container(cy, y, 'str_cdr3', rng)), 'pc2', pc2=tok2(x, y),
+                      desc='a = %s of %s, b = %s of %s' % (cx, x, cy, y), replay=dict(a=x, b=y, containers=[cx, cy]))
+    # label arrays of different numeric dtypes
+    for da, db in (('int8', 'int64'), ('int64', 'uint8'), ('int32', 'int16'), ('float64', 'int64')):
+        a, b = [3, 1, 3, 100, 7], [100, 3, 3, 2, 100, 100]
+        J.add('two samples: value', 'pc(a, b)[%s, %s]' % (da, db), st.pc, (np.array(a, dtype=da), np.array(b, dtype=db)), 'pc2', pc2=tok2(a, b),
+              desc='a = %s array %s, b = %s array %s' % (da, a, db, b), replay=dict(a=a, b=b, dtypes=[da, db]))
+    # two preallocated buffers refilled in place
+    for N1, N2, K in ((3, 4, 2), (2, 2, 3)) if quick else ((3, 4, 2), (2, 2, 3), (4, 4, 3), (5, 3, 2)):
+        for kindb in ('int', 'str'):
+            b1 = np.empty(N1, dtype=np.int64 if kindb == 'int' else '<U6')
+            b2 = np.empty(N2, dtype=np.int64 if kindb == 'int' else '<U6')
+            combos = [(c1, c2) for c1 in compositions(N1, K) for c2 in compositions(N2, K)]
+            rng.shuffle(combos)
+            for r, (c1, c2) in enumerate(combos[:12 if quick else 60]):
+                a = [i for i, c in enumerate(c1) for _ in range(c)]
+                b = [i for i, c in enumerate(c2) for _ in range(c)]
+                rng.shuffle(a)
+                rng.shuffle(b)
+                la, lb = (a, b) if kindb == 'int' else (['CAS' + 'L' * i for i in a], ['CAS' + 'L' * i for i in b])
+
+                def fill2(la=la, lb=lb, b1=b1, b2=b2):
+                    b1[:] = la
+                    b2[:] = lb
+                J.add('two sample buffers refilled in place', 'pc(a, b)[refilled buffers]', st.pc, (b1, b2), 'pc2', pc2=tok2(la, lb), pre=fill2,
+                      desc='two preallocated %s arrays holding a = %s, b = %s (refill number %d)' % (kindb, la, lb, r + 1),
+                      replay=dict(a=la, b=lb, refill=r + 1, kind=kindb))
+                if r % 4 == 3:      # one-sample calls on the same buffers in between
+                    J.add('two sample buffers refilled in place', 'pc[refilled buffer, between two-sample calls]', st.pc, (b1,), 'pc',
+                          counts=_counts_of(la), desc='the first of the two buffers, holding %s' % la, replay=dict(a=la, refill=r + 1, kind=kindb))
+    # sizes where sum c1_i c2_i leaves 32 bits (exact rational of the specification; beyond the unary naturals of the extracted pc2)
+    for N1, N2, K in ((10 ** 5, 10 ** 5, 2), (10 ** 5, 10 ** 5 + 3, 1), (2 ** 15 + 1, 3 * 10 ** 5, 40)) if quick else \
+            ((10 ** 5, 10 ** 5, 2), (10 ** 5, 10 ** 5 + 3, 1), (2 ** 15 + 1, 3 * 10 ** 5, 40), (2 * 10 ** 6, 3 * 10 ** 6, 5), (10 ** 6, 10 ** 6, 10 ** 4)):
+        nrng = np.random.RandomState(rng.randint(0, 2 ** 31 - 1))
+        i1, i2 = nrng.randint(0, K, size=N1), nrng.randint(0, K + 2, size=N2)
+        k1, k2 = np.bincount(i1, minlength=K + 2), np.bincount(i2, minlength=K + 2)
+        exp = Fraction(sum(int(x) * int(y) for x, y in zip(k1, k2)), N1 * N2)
+        for kindb in ('int', 'str'):
+            names = np.array(['CASS%dF' % i for i in range(K + 2)])
+            a, b = (i1 * 5 - 1, i2 * 5 - 1) if kindb == 'int' else (names[i1], names[i2])
+            J.add('two samples: large', 'pc(a, b)[N1=%d, N2=%d]' % (N1, N2), st.pc, (a, b), 'pc2', exp=exp,
+                  desc='%d and %d %s labels over %d / %d categories' % (N1, N2, kindb, K, K + 2), replay=dict(N1=N1, N2=N2, K=K, kind=kindb))
+
+    # (j) samples whose elements are ROWS: DataFrame (one to three columns, any index), the deprecated (alpha, beta) pair; stdpc_joint
+    xs, ys, zs = ['a', 'ab', 'abc', 'b', 'CASSL', ''], ['bc', 'c', '', 'x', 'CASSL', 'b'], [1, 12, 2, 21, 0, 121]
+    universe = [(x, y, z) for x in xs for y in ys for z in zs]
+    for trial in range(60 if quick else 400):
+        ncol = rng.choice([1, 2, 2, 3])
+        K = rng.randint(1, 7)
+        rowsU = rng.sample(universe, K)
+        if trial % 4 == 0:            # rows whose cells concatenate to the same text without a separator, and rows equal up to column order
+            rowsU = [('a', 'bc', 1), ('ab', 'c', 1), ('abc', '', 1), ('', 'abc', 1), ('bc', 'a', 1), ('a', 'b', 12), ('a', 'b', 1)][:max(K, 2)]
+        pat = [rng.choice([1, 1, 2, 3, 4]) for _ in rowsU]
+        rows = [r for r, c in zip(rowsU, pat) for _ in range(c)]
+        rng.shuffle(rows)
+        cols = ['CDR3A', 'CDR3B', 'n'][:ncol]
+        df = pd.DataFrame({c: [r[i] for r in rows] for i, c in enumerate(cols)})
+        ikind = rng.choice(['default', 'permuted', 'str', 'duplicate'])
+        if ikind == 'permuted':
+            df.index = rng.sample(range(len(rows)), len(rows))
+        elif ikind == 'str':
+            df.index = ['s%d' % (len(rows) - i) for i in range(len(rows))]
+        elif ikind == 'duplicate':
+            df.index = [0] * len(rows)
+        keyrows = [r[:ncol] for r in rows]
+        v = _counts_of(keyrows)
+        desc = 'DataFrame (%s index) with rows %s' % (ikind, _show_sample(keyrows))
+        rep = dict(rows=[list(r) for r in keyrows], columns=cols, index=ikind)
+        if len(rows) >= 2:
+            J.add('row samples', 'pc[DataFrame, %d columns]' % ncol, st.pc, (df,), 'pc', counts=v, desc=desc, replay=rep)
+        if ncol == 2 and len(rows) >= 2:
+            al, be = [r[0] for r in rows], [r[1] for r in rows]
+            forms = [('lists', (al, be)), ('ndarrays', (np.array(al), np.array(be))),
+                     ('Series with different indexes', (pd.Series(al, index=rng.sample(range(len(rows)), len(rows))), pd.Series(be, index=range(100, 100 + len(rows)))))]
+            fname, pair = forms[trial % 3]
+            J.add('row samples', 'pc[(alpha, beta) pair of %s]' % fname, st.pc, (pair,), 'pc', counts=v, desc='pair of %s, rows %s' % (fname, _show_sample(keyrows)),
+                  replay=dict(rep, form=fname))
+        # two row samples
+        rows2 = [r for r in rowsU for _ in range(rng.choice([0, 1, 2]))] + [rng.choice(universe)]
+        rng.shuffle(rows2)
+        df2 = pd.DataFrame({c: [r[i] for r in rows2] for i, c in enumerate(cols)})
+        if ikind != 'default':
+            df2.index = rng.sample(range(50, 50 + len(rows2)), len(rows2))
+        k2 = [r[:ncol] for r in rows2]
+        J.add('row samples', 'pc(a, b)[DataFrames, %d columns]' % ncol, st.pc, (df, df2), 'pc2', pc2=tok2(keyrows, k2),
+              desc='a = %s, b = DataFrame with rows %s' % (desc, _show_sample(k2)), replay=dict(rep, rows2=[list(r) for r in k2]))
+        # stdpc_joint: the root of varpc_n of the counts of the joint values of the columns `on` (no cell contains the gap token)
+        on = rng.sample(cols, rng.randint(1, ncol))
+        gap = rng.choice(['_', '_', '|', '--', ' '])
+        kon = [tuple(r[cols.index(c)] for c in on) for r in rows]
+        dfe = df.copy()
+        dfe.insert(rng.randint(0, ncol), 'other', [rng.choice(['u', 'v']) for _ in rows])
+        kw = {} if gap == '_' else dict(gap_token=gap)
+        J.add('stdpc_joint', 'stdpc_joint[on=%d of %d columns%s]' % (len(on), ncol + 1, '' if gap == '_' else ', gap_token=%r' % gap), st.stdpc_joint,
+              (dfe, on) if trial % 3 else (dfe,), 'std', kwargs=kw if trial % 3 else dict(kw, on=on), counts=_counts_of(kon),
+              desc='stdpc_joint(DataFrame (%s index) with columns %s, on=%s%s), joint values %s' %
+                   (ikind, list(dfe.columns), on, '' if gap == '_' else ', gap_token=%r' % gap, _show_sample(kon)),
+              replay=dict(rows=[list(map(str, r)) for r in dfe.to_numpy().tolist()], columns=list(dfe.columns), on=on, gap_token=gap, index=ikind))
+    return J.run()
+
+
 def run(ctx):
     import pyrepseq.stats as st
     import pandas as pd
@@ -105,7 +661,15 @@ def run(ctx):
                 'generated exact-rational functions; (b) random vectors up to N = 10^6, and count vectors stored as int8 ... uint64 arrays / Series '
                 'whose terms n(n-1), n(n-1)(n-2) fit the dtype while their sums do not (N < 2*10^6); (c) the expectation itself on the '
                 'implementation: for each (N, K, p) on a rational grid, sum over ALL count vectors of implementation value x exact '
-                'multinomial probability compared with sum p^2 and Var(pc). non-trivial := at least two categories occupied, N >= 4')
+                'multinomial probability compared with sum p^2 and Var(pc) (N = 2, 3: E[pc] only; p with a zero entry; one-point p); '
+                '(d)-(j) the same functions on the input kinds a caller has: counts as tuple / list of numpy ints / array.array / range / float, '
+                'object, read-only, strided arrays / Series with default, shifted, permuted index, Int64, float64, value_counts(), groupby().size() / '
+                'Index; one count buffer refilled in place; K up to 10^5 categories; samples of int, wide int, uint64, int8, bool, float, '
+                'str (shared prefixes, case / whitespace variants, 127-1000 characters, non-ASCII), bytes labels as list, tuple, str / object / '
+                'read-only / strided array, Series (four index kinds), Index, one-column DataFrame; sample sizes across 2^15, 2^16, 2^21; the '
+                'two-sample VALUE against the model pc2 (containers, label kinds, str arrays of different widths, buffers refilled in place, '
+                'N1, N2 = 10^5); row samples (DataFrame, deprecated pair tuple) and stdpc_joint. '
+                'non-trivial := at least two categories occupied, N >= 4')
     Nmax = 9 if ctx.quick else 13
     vecs = [c for K in (1, 2, 3, 4) for N in range(2, Nmax + 1) for c in compositions(N, K)]
     vecs = [list(c) for c in vecs]
@@ -228,6 +792,9 @@ def run(ctx):
                                       site='stats.%s[refilled buffer]' % name)
             if len(ctx.violations) > 10:
                 return
+    # (d)-(j) widened input kinds
+    if not widened(ctx, st, pd):
+        return
     # the generator is only worth something if sums beyond the dtype actually occurred (term by term in range)
     for dt in NARROW_DTYPES[:5]:
         for order, r in ((2, 2), (3, 2), (3, 3)):
@@ -240,15 +807,22 @@ def run(ctx):
     # (c) unbiasedness evaluated on the implementation by exact enumeration
     grid = [(N, K) for N in (4, 5, 6, 7) for K in (2, 3)] if ctx.quick else \
            [(N, K) for N in range(4, 11) for K in (2, 3, 4) if not (N > 8 and K == 4)]
+    # N = 2, 3: E[pc] only (the variance estimator needs N >= 4); K = 1: the one-point distribution
+    grid = [(2, 2), (2, 3), (3, 2), (3, 3), (4, 1), (2, 1)] + grid + ([] if ctx.quick else [(2, 4), (3, 4), (2, 6), (3, 5)])
     for N, K in grid:
-        for _ in range(2 if ctx.quick else 12):
+        for trial in range(2 if ctx.quick else 12):
             w = [rng.randint(1, 6) for _ in range(K)]
+            if trial % 2 == 1 and K >= 3:
+                w[rng.randrange(K)] = 0          # a category of probability zero
+                ctx.count('expectation_p_with_a_zero_entry')
             p = [Fraction(x, sum(w)) for x in w]
             e_pc = e_pc2 = e_var = Fraction(0)
             for c in compositions(N, K):
                 pr = multinomial_prob(c, p)
                 a = np.array(c)
-                g1, g2 = call_impl(st.pc_n, a), call_impl(st.varpc_n, a)
+                if pr == 0:
+                    continue
+                g1, g2 = call_impl(st.pc_n, a), (call_impl(st.varpc_n, a) if N >= 4 else ('ok', 0.0))
                 if g1[0] != 'ok' or g2[0] != 'ok':
                     ctx.violation('property', 'pc_n / varpc_n raised %s on the count vector %s (probability %s under p=%s): the estimator has no '
                                   'expectation there' % ((g1, g2), list(c), pr, p), dict(counts=list(c), p=[str(q) for q in p]), site='stats.pc_n')
@@ -265,13 +839,13 @@ def run(ctx):
             if abs(e_pc - s2) > 1e-9:
                 ctx.violation('property', 'E[pc_n] = %s differs from sum p^2 = %s for N=%d p=%s' % (float(e_pc), float(s2), N, p),
                               dict(N=N, K=K, p=[str(q) for q in p], E_pc=str(e_pc), sum_p2=str(s2)), site='stats.pc_n')
-            if abs(e_var - (e_pc2 - e_pc ** 2)) > 1e-9:
+            if N >= 4 and abs(e_var - (e_pc2 - e_pc ** 2)) > 1e-9:
                 ctx.violation('property', 'E[varpc_n] = %s differs from Var(pc) = %s for N=%d p=%s' %
                               (float(e_var), float(e_pc2 - e_pc ** 2), N, p),
                               dict(N=N, K=K, p=[str(q) for q in p], E_var=str(e_var), Var=str(e_pc2 - e_pc ** 2)),
                               site='stats.varpc_n')
     # two-sample estimator, exact enumeration on the implementation
-    for N1, N2, K in ([(2, 3, 2), (3, 2, 3)] if ctx.quick else [(2, 3, 2), (3, 2, 3), (4, 4, 3), (1, 5, 3), (5, 1, 2), (3, 6, 3), (6, 3, 2), (2, 2, 4), (5, 5, 2)]):
+    for N1, N2, K in ([(2, 3, 2), (3, 2, 3), (1, 4, 2), (3, 3, 2), (4, 1, 3), (1, 1, 3)] if ctx.quick else [(1, 1, 3), (3, 3, 3), (1, 4, 2), (2, 3, 2), (3, 2, 3), (4, 4, 3), (1, 5, 3), (5, 1, 2), (3, 6, 3), (6, 3, 2), (2, 2, 4), (5, 5, 2)]):
         w1 = [rng.randint(1, 5) for _ in range(K)]
         w2 = [rng.randint(1, 5) for _ in range(K)]
         p = [Fraction(x, sum(w1)) for x in w1]
